@@ -59,8 +59,8 @@ def binop (op : Bop) (t : Ty) (x y : Int) : Option Val :=
       if y ≥ 64 then some (.int 0) else some (.int (wrap t ((toU t x <<< y.toNat : Nat) : Int)))
   | .shr => if y < 0 then none else
       if y ≥ 64 then some (.int (if x < 0 then -1 else 0)) else some (.int (x / ((2 ^ y.toNat : Nat) : Int)))
-  | .eq => some (.bool (x == y))
-  | .ne => some (.bool (x != y))
+  | .eq => some (.bool (decide (x = y)))
+  | .ne => some (.bool (decide (x ≠ y)))
   | .lt => some (.bool (x < y))
   | .le => some (.bool (x ≤ y))
   | .gt => some (.bool (x > y))
